@@ -145,9 +145,15 @@ def run(c):
             c.report(key0, "event (%s -> %s) is not a step the specification allows" % (events[i].get("op"), events[i].get("res")),
                      dict({"ops": s["ops"], "rejected_event": events[i]}, **c.rp("sigdb", s, validate=("SigDbTrace", "SigDbTrace.cfg"))))
             continue
+        pref = c.prefix_of.get(("sigdb", sc))
         res2, d2 = c.run_worker("sigdb", [s], parallel=1)
         ev2 = [{k: v for k, v in e.items() if k not in ("sc", "i", "panic")} for e in res2.get(sc, [])]
         rej2 = c.validate_traces("SigDbTrace", "SigDbTrace.cfg", ev2) if ev2 else []
+        if not rej2 and pref:
+            # not alone: with the scenarios that preceded it in its worker process (state the library keeps across objects)
+            res2, d2 = c.run_worker("sigdb", list(pref[0][:pref[1]]), parallel=1)
+            ev2 = [{k: v for k, v in e.items() if k not in ("sc", "i", "panic")} for e in res2.get(sc, [])]
+            rej2 = c.validate_traces("SigDbTrace", "SigDbTrace.cfg", ev2) if ev2 else []
         if not rej2:
             raise vf.FrameworkError("rejection of scenario %s not reproduced" % sc)
         k = rej2[0]
